@@ -1214,7 +1214,7 @@ func c13Describe(in []int64) string {
 }
 
 func init() {
-	Register(&Prop{ID: "C13", Num: 13, SpecMode: "equal", Gen: c13Gen, Impl: c13Impl,
+	Register(&Prop{ID: "C13", Pure: true, Num: 13, SpecMode: "equal", Gen: c13Gen, Impl: c13Impl,
 		Shrink: c13Shrink, Describe: c13Describe,
 		Rule: "DList (implementation vs container/list vs model vs sequence specification): every defined operation with every handle choice (live, foreign, removed, never inserted; self-copies) on every state with list 0 <= 4 and list 1 <= 2 nodes, pairs of operations on the smaller states, all pairs on untouched zero-value / initialised lists, random sequences of 10-70 operations; each case ends with a full observation (Len, Front, Back, both traversals, All with early stops, Next/Prev/Value of every handle). SList: sizes 0..4 x every operation x every index in -1..n+1 and indices +-2^8, 2^16, 2^31, 2^32, 2^60 (+j) far outside the range (Swap all pairs) x every detached node, sequences up to the tier's depth; random sequences. distinct = distinct case; non-trivial = exhaustive cases with at least one mutating operation after the setup, random cases with at least 4 operation kinds"})
 }
